@@ -416,12 +416,12 @@ theorem R5_premise_fails : compatV { equalIdsIgnoreContext := true } tR5 48 11 1
     isCompatible tR5 48 11 12 = some false := by decide
 theorem R5_repaired : isCompatible tR5 48 12 11 = some false := by decide
 
-/-- R6 (OPEN — what is left of R1): 0 int, 1 `^2`, 2 `^2 | int`, 3 `[x: (^ | int)]`, 4 `A[[x: (^ | int)]]`,
+/-- R6 (fixed by ecfc5db — what was left of R1): 0 int, 1 `^2`, 2 `^2 | int`, 3 `[x: (^ | int)]`, 4 `A[[x: (^ | int)]]`,
 5 `Nil`, 6 bin, 7 `^1`, 8 `B[x: bin, y: ^1]`, 9 `'p = Nil | A[[x: (^ | int)]] | B[x: bin, y: ^]`, 10 ref,
 11 `^2 | ref`, 12 `B[x: (^ | ref), y: ^1]`, 13 `'q = Nil | A[[x: (^ | int)]] | B[x: (^ | ref), y: ^]`.
-A resolved `Cycle` goes on with the whole stack: inside `A[[x: (^ | int)]]` the `^` is resolved to `'p` while
-`(^ | int)` is still on the stack, `'p` is "already there" and not pushed again, and the `^`s of its variants
-are then counted from `(^ | int)`: `bin ≤ (^ | ref)` is accepted by an assumption that closes on itself.
+A resolved `Cycle` went on with the whole stack: inside `A[[x: (^ | int)]]` the `^` was resolved to `'p` while
+`(^ | int)` was still on the stack, `'p` was "already there" and not pushed again, and the `^`s of its variants
+were then counted from `(^ | int)`: `bin ≤ (^ | ref)` was accepted by an assumption that closes on itself.
 (Nil = 2, A = 3, B = 4, x = 5, y = 6) -/
 def tR6 : Table :=
   ⟨[.integer, .cycle 2, .union [1, 0], .tuple 2, .tuple 3, .tuple 4, .binary, .cycle 1, .tuple 5,
@@ -432,7 +432,9 @@ def tR6 : Table :=
 /-- `B[x: 0x, y: Nil]` -/
 def vR6 : V := .tup (some 4) (.cons (some 5) (.bin []) (.cons (some 6) (.tup (some 2) .nil) .nil))
 
-theorem R6_accepted : isCompatible tR6 64 9 13 = some true := by decide
+theorem R6_accepted : compatV { cycleKeepsInnerStack := true } tR6 64 9 13 = some true := by decide
+/-- with the entries above the target set aside the pair is rejected -/
+theorem R6_repaired : isCompatible tR6 64 9 13 = some false := by decide
 theorem R6_closed : Ordered tR6 ∧ Closed tR6 9 ∧ Closed tR6 13 :=
   ⟨by decide, ⟨8, by decide⟩, ⟨8, by decide⟩⟩
 theorem R6_value_left : inh tR6 [] 9 vR6 := ⟨8, by decide⟩
@@ -486,9 +488,10 @@ theorem R6_value_not_right : ¬ inh tR6 [] 13 vR6 := by
       · obtain ⟨_, hr⟩ := (inh_reference (T := tR6) (t := 10) rfl).mp hxv
         cases hr
 
-/-- **the full soundness statement does not hold of the code as it is** (recursive types with a
-back-reference below a nested union; the first-order theorem `compat_sound_fo` is unaffected) -/
-theorem compat_sound_fails_on_recursive_types : ¬ CompatSoundStatement := fun h =>
+/-- **before ecfc5db the full soundness statement did not hold** (recursive first-order types with a
+back-reference below a nested union) -/
+theorem compat_sound_failed_on_recursive_types_before_R6 :
+    ¬ CompatSoundStatementV { cycleKeepsInnerStack := true } := fun h =>
   R6_value_not_right (h tR6 9 13 64 R6_closed.1 R6_closed.2.1 R6_closed.2.2 R6_accepted vR6 R6_value_left)
 
 /-- R2: 0 int, 1 never, 2 `@(never / int)`, 3 `@(int / int)` — the first is assignable to the
@@ -520,6 +523,7 @@ def vrBeforeRecursiveFixes : Variant where
   leftCycleOnRightStack := true
   cycleSameDepthShortcut := true
   equalIdsIgnoreContext := true
+  cycleKeepsInnerStack := true
 
 theorem R4_old_rule_no_answer : compatV vrBeforeRecursiveFixes tR4 64 3 4 = none := by decide
 theorem R4_repaired : isCompatible tR4 16 3 4 = some true ∧ isCompatible tR4 16 4 3 = some true := by
